@@ -20,10 +20,10 @@ func HarnessC12(L, cut int) {
 }
 
 // HarnessC12Shape: a GET-shaped request whose count field (cw bytes), length fields (lw and lw2
-// bytes), command name (3 bytes) and key (1 byte) are arbitrary; CR/LF and the '*'/'$' markers are
+// bytes), command name (3 bytes) and key (klen bytes) are arbitrary; CR/LF and the '*'/'$' markers are
 // fixed. It reaches the non-canonical / negative / signed / padded spellings of counts and lengths
 // that need more bytes than the raw-input bound allows.
-func HarnessC12Shape(cw, lw, lw2, cut int) {
+func HarnessC12Shape(cw, lw, lw2, cut, klen int) {
 	var in []byte
 	in = append(in, '*')
 	in = append(in, verifrt.Bytes("count", cw)...)
@@ -34,7 +34,7 @@ func HarnessC12Shape(cw, lw, lw2, cut int) {
 	in = append(in, "\r\n$"...)
 	in = append(in, verifrt.Bytes("len2", lw2)...)
 	in = append(in, "\r\n"...)
-	in = append(in, verifrt.Bytes("key", 1)...)
+	in = append(in, verifrt.Bytes("key", klen)...)
 	in = append(in, "\r\n"...)
 	verifC12(in, cut)
 }
@@ -140,5 +140,5 @@ func anyBytes(w *core.VerifWorld) bool {
 func init() {
 	verifrt.Register("HarnessC12Len", func(p []int64) { HarnessC12Len(int(p[0]), int(p[1])) })
 	verifrt.Register("HarnessC12", func(p []int64) { HarnessC12(int(p[0]), int(p[1])) })
-	verifrt.Register("HarnessC12Shape", func(p []int64) { HarnessC12Shape(int(p[0]), int(p[1]), int(p[2]), int(p[3])) })
+	verifrt.Register("HarnessC12Shape", func(p []int64) { HarnessC12Shape(int(p[0]), int(p[1]), int(p[2]), int(p[3]), int(p[4])) })
 }
